@@ -476,10 +476,16 @@ bool IP::matches_response(const uint8_t* ptr, uint32_t total_sz) const {
         return false;
     }
     const ip_header* ip_ptr = (const ip_header*)ptr;
+    // The payload of the reply starts after the reply's own header
+    const uint32_t reply_header_size = ip_ptr->ihl * sizeof(uint32_t);
+    if (reply_header_size < sizeof(ip_header)) {
+        return false;
+    }
+    const uint32_t sz = (reply_header_size < total_sz) ? reply_header_size : total_sz;
     // dest unreachable?
     if (ip_ptr->protocol == Constants::IP::PROTO_ICMP) {
-        const uint8_t* pkt_ptr = ptr + sizeof(ip_header);
-        uint32_t pkt_sz = total_sz - sizeof(ip_header);
+        const uint8_t* pkt_ptr = ptr + sz;
+        uint32_t pkt_sz = total_sz - sz;
         // It's an ICMP dest unreachable
         if (pkt_sz > 8 && pkt_ptr[0] == 3) {
             // Skip the 8 byte ICMP header
@@ -496,8 +502,6 @@ bool IP::matches_response(const uint8_t* ptr, uint32_t total_sz) const {
     if ((header_.saddr == ip_ptr->daddr && 
         (header_.daddr == ip_ptr->saddr || dst_addr().is_broadcast())) ||
         (dst_addr().is_broadcast() && header_.saddr == 0)) {
-
-        uint32_t sz = (header_size() < total_sz) ? header_size() : total_sz;
         return inner_pdu() ? inner_pdu()->matches_response(ptr + sz, total_sz - sz) : true;
     }
     return false;
